@@ -98,3 +98,19 @@ Proof.
          first [exact D0|exact D1|exact D2]|]).
   exact I.
 Qed.
+
+(* ---------- ... but NOT all weights: with a negative weight the edge list `CIJ > 0` drops an edge that the degrees
+   (binarize: every nonzero entry) still count.  The docstring says "all connection weights are ignored". ---------- *)
+Definition assortativity_bin_ignores_all_weights : Prop :=
+  forall n W flag, oeq (assortativity_bin n W flag) (assortativity_bin n (binarize W) flag).
+
+Definition neg_witness : mat Q := of_rows 0 [[0; - (2); 1; 0]; [- (2); 0; 1; 0]; [1; 1; 0; 1]; [0; 0; 1; 0]]%list.
+
+Theorem assortativity_bin_ignores_weights_refuted : ~ assortativity_bin_ignores_all_weights.
+Proof.
+  intros H. specialize (H 4%nat neg_witness 0%nat). vm_compute in H. discriminate H.
+Qed.
+(* the two values on the witness: -4/5 on W, -5/7 on binarize(W) *)
+Lemma neg_witness_values :
+  oeq (assortativity_bin 4 neg_witness 0) (Some (- (4 # 5))) /\ oeq (assortativity_bin 4 (binarize neg_witness) 0) (Some (- (5 # 7))).
+Proof. split; vm_compute; reflexivity. Qed.
